@@ -176,7 +176,7 @@ namespace smt
     {
         lin res;
         for (const auto &[v, c] : vars)
-            res.vars.at(v) = -c;
+            res.vars.emplace(v, -c);
         res.known_term = -known_term;
         return res;
     }
